@@ -79,7 +79,7 @@ def build():
     common.target64(u)
     common.std_specs(u)
     common.handle_trait(u, P)
-    for h in ('AnnotationHandle', 'TextResourceHandle', 'AnnotationDataSetHandle', 'AnnotationDataHandle', 'DataKeyHandle', 'TextSelectionHandle'):
+    for h in ('AnnotationHandle', 'TextResourceHandle', 'AnnotationDataSetHandle', 'AnnotationDataHandle', 'DataKeyHandle', 'TextSelectionHandle', 'AnnotationSubStoreHandle'):
         common.handle_impl(u, h, P)
     u.trusted_text(u_map.VX_POSITION, 'external_body vx_position: std Iterator::position semantics + structural == on handles (R-outline)')
     u_map.emit_relationmap(u, P, with_canary=False, pushed=True)
@@ -89,7 +89,8 @@ def build():
             'annotation_annotation_map', 'key_annotation_metamap', 'data_annotation_metamap']
     u.item('src/error.rs', 'enum', 'StamError', keep_variants=['HandleError', 'NotFoundError', 'OtherError'], keep_derives=['Debug'],
            rewrites=[('R-field', r'NotFoundError\(Type, &\'static str\)', "NotFoundError(&'static str)")])
-    u.item(AS, 'struct', 'AnnotationStore', keep_fields=MAPS, keep_derives=[])
+    UNTOUCHED = ['key_annotation_map', 'annotation_substore_map', 'resource_substore_map', 'dataset_substore_map']
+    u.item(AS, 'struct', 'AnnotationStore', keep_fields=MAPS + UNTOUCHED, keep_derives=[])
     CMP = 'vstd::laws_cmp::obeys_cmp::<AnnotationHandle>()'
     SIG = ('fn preremove__unindex(&mut self, handle: AnnotationHandle, annotation_targets: Vec<AnnotationHandle>, resource_targets: Vec<TextResourceHandle>, '
            'dataset_targets: Vec<AnnotationDataSetHandle>, data_handles: Vec<(AnnotationDataSetHandle, AnnotationDataHandle)>, '
@@ -110,7 +111,7 @@ def build():
     before = []
     after = []
     for k, (tv, lv, mf, shape) in enumerate(LOOPS):
-        inv = [('cmp', CMP)]
+        inv = [('cmp', CMP)] + [(f'untouched_{f}', f'self.{f} == old(self).{f}') for f in ('key_annotation_map', 'annotation_substore_map', 'resource_substore_map', 'dataset_substore_map')]
         for j, (tv2, lv2, mf2, shape2) in enumerate(LOOPS):
             if j < k:
                 inv.append((f'done_{mf2}', f'{shape2}_unindexed(old(self).{mf2}, self.{mf2}, {tv2}@, handle)'))
@@ -198,6 +199,7 @@ def build():
                               f'&& tr_once({O}.dataset_data_annotation_map, handle) && tr_once({O}.data_annotation_metamap, handle) && tr_once({O}.key_annotation_metamap, handle) && tr_once({O}.textrelationmap, handle)')],
            ensures=[
                ('ok', 'r is Ok'),
+               ('other_indices_untouched', ' && '.join(f'{N}.{f} == {O}.{f}' for f in UNTOUCHED)),
                ('annotation_annotation_map', f'bt_unindexed({O}.annotation_annotation_map, {N}.annotation_annotation_map, annotation_targets@, handle)'),
                ('resource_annotation_metamap', f'rm_unindexed({O}.resource_annotation_metamap, {N}.resource_annotation_metamap, resource_targets@, handle)'),
                ('dataset_annotation_metamap', f'rm_unindexed({O}.dataset_annotation_metamap, {N}.dataset_annotation_metamap, dataset_targets@, handle)'),
